@@ -116,22 +116,30 @@ func (c *hbConn) Write(b []byte) (n int, err error) {
 }
 
 func (c *hbConn) Read(b []byte) (int, error) {
+	var readBytes errBytes
 	select {
 	case <-c.closed:
-		return 0, net.ErrClosed
-	case readBytes := <-c.recvCh:
-		if readBytes.err != nil {
-			return 0, readBytes.err
+		// Messages received before the connection closed are still delivered,
+		// in order; closed is reported once the queue is empty.
+		select {
+		case readBytes = <-c.recvCh:
+		default:
+			return 0, net.ErrClosed
 		}
-
-		if len(b) < len(readBytes.b) {
-			return 0, ErrInsufficientBuffer
-		}
-
-		n := copy(b, readBytes.b)
-
-		return n, nil
+	case readBytes = <-c.recvCh:
 	}
+
+	if readBytes.err != nil {
+		return 0, readBytes.err
+	}
+
+	if len(b) < len(readBytes.b) {
+		return 0, ErrInsufficientBuffer
+	}
+
+	n := copy(b, readBytes.b)
+
+	return n, nil
 }
 
 func (c *hbConn) BufferedAmount() uint64 {
